@@ -745,6 +745,12 @@ func execCacheFile(t *testing.T, prop string, planJSON []byte, ch *simrt.Choices
 	for k, v := range res.Kinds {
 		out.Faults["disk-"+k] += v
 	}
+	if p.AgeSec >= 3600 {
+		out.Faults["clock-hours-or-days-between-announcement-and-save"]++
+	}
+	if p.DownSec >= 3600 {
+		out.Faults["clock-hours-or-days-between-save-and-load"]++
+	}
 	out.Probes["variants"] = res.Variants
 	out.Probes["variants-with-saved-templates-still-known"] = res.Loaded
 	out.Probes["file-octets"] = len(res.File)
